@@ -40,7 +40,7 @@ class Totality(object):
     def __init__(self, ctx, which):
         self.ctx = ctx
         self.which = which
-        self.sf = env.load_selfies()
+        self.sf = env.varied(env.load_selfies(), ctx)
         self.steps = StepCounter()
         self.steps.start()
         self.steplimit_hits = 0
